@@ -272,19 +272,21 @@ def r1(ctx):
     ctx.need(len(base) == 2, f"{f.site()}: expected exactly two arithmetic arms, found {len(base)}")
     # identify arms by their condition: k < r  (integer NF: k + 1 - r <= 0)
     want_lt = ("cmp", "<=", (kk + Poly.const(1) - r).key())
-    arm1 = [p for p in base if p[0] and p[0][0] == (want_lt, True)]
-    arm2 = [p for p in base if p[0] and p[0][0] == (want_lt, False)]
+    want_ge = ("cmp", "<=", (r - kk).key())           # the same split asked the other way round: k >= r  (integer NF: r - k <= 0)
+    arm1 = [p for p in base if p[0] and p[0][0] in ((want_lt, True), (want_ge, False))]
+    arm2 = [p for p in base if p[0] and p[0][0] in ((want_lt, False), (want_ge, True))]
     ctx.check("R1", f"{f.site()}::arm-condition", len(arm1) == 1 and len(arm2) == 1, "the two arms are selected by chunk_index < remainder",
               f"the arms are not selected by `chunk_index < remainder` (conditions: {[p[0] for p in base]})")
     if not (len(arm1) == 1 and len(arm2) == 1):
         return
     s1, e1 = arm1[0][1], arm1[0][2]
     s2, e2 = arm2[0][1], arm2[0][2]
+    first_pol = arm1[0][0][0][1]          # the polarity under which the test as written selects the `k < r` arm
 
     def at(kval, arm):
         res = summarise(kval)
         # pick by arm index (conditions are re-normalised with the substituted k, so select positionally)
-        sel = [p for p in res if p[0][0][1] == arm]
+        sel = [p for p in res if p[0][0][1] == (arm if first_pol else not arm)]
         return sel[0][1], sel[0][2]
     one = Poly.const(1)
     Cc = Poly.atom(("var", "C"))
@@ -446,8 +448,21 @@ def _r3_tail(ctx, f, cq, N, ok, lp, zipped, both, dn, rets, env):
     ok = ok and len(lp) == 1 and (zipped or U(lp[0].iter) == "range(self.current_index)")
     if ok and not zipped:
         i = U(lp[0].target)
-        st = {U(n.targets[0]).replace(" ", ""): U(n.value).replace(" ", "") for n in lp[0].body if isinstance(n, ast.Assign)}
-        both = st == {f"{dn}[self.row_indices[{i}],self.col_indices[{i}]]": f"self.values[{i}]", f"{dn}[self.col_indices[{i}],self.row_indices[{i}]]": f"self.values[{i}]"}
+        # locals of the loop body that only name an element of a stored array are read through (row, col = self.row_indices[k], self.col_indices[k])
+        lenv = {}
+        for n in lp[0].body:
+            if isinstance(n, ast.Assign) and len(n.targets) == 1 and isinstance(n.targets[0], ast.Name):
+                lenv[n.targets[0].id] = n.value
+            elif isinstance(n, ast.Assign) and len(n.targets) == 1 and isinstance(n.targets[0], ast.Tuple) and isinstance(n.value, ast.Tuple) and len(n.targets[0].elts) == len(n.value.elts) \
+                    and all(isinstance(t, ast.Name) for t in n.targets[0].elts):
+                for t, v in zip(n.targets[0].elts, n.value.elts):
+                    lenv[t.id] = v
+        lenv = {k: v for k, v in lenv.items() if U(v).replace(" ", "") in (f"self.row_indices[{i}]", f"self.col_indices[{i}]", f"self.values[{i}]")
+                and sum(1 for x in ast.walk(lp[0]) if isinstance(x, ast.Name) and x.id == k and isinstance(x.ctx, ast.Store)) == 1}
+        st = {U(inline(n.targets[0], lenv)).replace(" ", ""): U(inline(n.value, lenv)).replace(" ", "") for n in lp[0].body
+              if isinstance(n, ast.Assign) and isinstance(n.targets[0], ast.Subscript)}
+        stores_only = all(isinstance(n, ast.Assign) for n in lp[0].body) and sum(1 for n in lp[0].body if isinstance(n.targets[0], ast.Subscript)) == 2
+        both = stores_only and st == {f"{dn}[self.row_indices[{i}],self.col_indices[{i}]]": f"self.values[{i}]", f"{dn}[self.col_indices[{i}],self.row_indices[{i}]]": f"self.values[{i}]"}
     ctx.check("R3", f"{f.site()}::zeros-and-both-triangles", ok and both, "starts from zeros(size, size); each stored value is written at [r, c] and [c, r]",
               "the dense matrix is not built from zeros by writing every stored value to both triangles (symmetry / zero diagonal)")
     ctx.check("R3", f"{f.site()}::returns-dense", [U(r.stmt.value) for r in rets] == [dn], "returns the assembled matrix", "does not return the assembled matrix")
